@@ -813,6 +813,8 @@ META = (META[0] + ' TRANSP-CALL; polynomial unrolling of loop-shaped layout mapp
 
 META = (META[0] + ' SIZESRC (size() of mdarray / mdspan is computed from the extents, never from the container or data handle); EMPTYANY (empty() of mdspan / mdarray is `size() == 0` or an existential over the extents).', META[1])
 
+META = (META[0] + ' PATIDX (extents::_dynamic_index evaluated from its source for every static/dynamic pattern of rank 1-4).', META[1])
+
 
 def run(chk, tier):
     db = D.load("checks")
@@ -828,6 +830,9 @@ def run(chk, tier):
     mirror_rule(chk, db)
     guard_rule(chk, db)
     dynslot_rule(chk, db)
+    from ..rules import extra8 as _X8
+    if _X8.check_dynamic_index(chk, db) < 1:      # PATIDX
+        chk.analysis_broken('PATIDX: etl::extents::_dynamic_index no longer exists')
     mapped_rule(chk, db)
     fullprod_rule(chk, db)
     transpose_call_rule(chk, db)
